@@ -88,8 +88,8 @@ func (h *hashRanges) removeElement(elHash uint64) {
 		rng = h.getBottomRange(rng, elHash)
 		rng.elements--
 	}
-	parent := rng.parent
-	if parent.elements <= h.compareThreshold && parent != h.topRange {
+	// merge upwards every divided range that is not over the threshold anymore
+	for parent := rng.parent; parent != h.topRange && parent.elements <= h.compareThreshold; parent = rng.parent {
 		ranges := genTupleRanges(parent.from, parent.to, h.divideFactor)
 		for _, tuple := range ranges {
 			child := h.ranges[tuple]
@@ -97,10 +97,9 @@ func (h *hashRanges) removeElement(elHash uint64) {
 			delete(h.dirty, child)
 		}
 		parent.isDivided = false
-		h.dirty[parent] = struct{}{}
-	} else {
-		h.dirty[rng] = struct{}{}
+		rng = parent
 	}
+	h.dirty[rng] = struct{}{}
 }
 
 func (h *hashRanges) recalculateHashes() {
